@@ -272,6 +272,15 @@ class RoundGen:
         if typ == "float":
             d = self.g.units.dims(unit)
             cands += [c for c, (f, dd) in self.g.units.custom.items() if dd == d and c != unit]
+            if not fam:
+                # the node's own unit is a custom one: values may come in the standard units
+                # of its dimension (the custom unit is then the *target* of the conversion)
+                for fam2, us in sorted(DM.FAMILY.items()):
+                    try:
+                        if self.g.units.dims(us[0]) == d:
+                            cands += list(us)
+                    except Exception:
+                        pass
         return rng.choice(cands) if cands else unit
 
     @staticmethod
@@ -391,6 +400,15 @@ class RoundGen:
                     v = self.number(typ, hi + 0.05 * span + 1, hi + 2 * span + 2) \
                         if rng.random() < 0.5 else self.number(typ, lo - 2 * span - 2,
                                                                lo - 0.05 * span - 1)
+                    core = node["condition"][1] if node["condition"][0] == "or" else node["condition"]
+                    if rng.random() < 0.3 and core[0] == "and":
+                        # exactly on an open boundary: '>' and '<' exclude it
+                        strict = [x for x, c in ((lo, core[1]), (hi, core[2]))
+                                  if c[0] == "cmp" and c[1] in (">", "<")]
+                        if strict:
+                            v = rng.choice(strict)
+                            if typ == "int":
+                                v = int(v) if float(v).is_integer() else v
                 elif typ == "str":
                     v = rng.choice(WORDS)
                 elif typ == "bool":
@@ -753,6 +771,19 @@ class RoundGen:
         name = rng.choice(["ell", "tick", "blob", "quux", "span", "lump"])
         if f"[{name}]" in self.g.units.custom:
             return
+        if self.cfg.get("refs") and rng.random() < 0.3:
+            # the size of the unit is the current value of a node: '$unit ell = {?a}' adopts
+            # the node's unit, '$unit ell = {?a} mm' keeps its own
+            cands = [p_ for p_, n_ in self.g.nodes.items()
+                     if n_["type"] in ("int", "float") and n_["unit"] is not None
+                     and isinstance(n_["value"], (int, float)) and not isinstance(n_["value"], bool)
+                     and n_["value"] > 0 and not n_["unit"].startswith("[")]
+            if cands:
+                rp = rng.choice(cands)
+                own = rng.choice([None, None, "mm", "s", "g"])
+                self.emit({"k": "unit", "indent": 0, "name": name, "value": None, "unit": own,
+                           "ref": {"src": None, "query": rp}})
+                return
         base = rng.choice(["m", "cm", "s", "g", "J", "km/s"])
         if self.g.units.custom and rng.random() < 0.25:
             base = rng.choice(sorted(self.g.units.custom))
@@ -1378,6 +1409,12 @@ class DipStoreMachine(Machine):
         kinds = sorted(w)
         i = 0
         guard = 0
+        if cfg["custom_units"] and rng.random() < 0.08:
+            # a prelude that defines units and nothing else: the environment it returns holds
+            # no node, later rounds are chained on it for its units
+            for _ in range(rng.randint(1, 2)):
+                gen.s_unit()
+            nst = 0 if gen.stmts else nst
         while i < nst and not gen.stopped and guard < nst * 4:
             guard += 1
             before = len(gen.stmts)
@@ -1423,7 +1460,8 @@ class DipStoreMachine(Machine):
         out = []
         file_ops = []
         for j, c in enumerate(chunks):
-            if c and all(st["k"] in ("unit", "source") for st in c) and rng.random() < 0.5:
+            if c and all(st["k"] in ("unit", "source") and st.get("ref") is None for st in c) \
+                    and rng.random() < 0.5:
                 # the same definitions through the Python API: add_unit() / add_source()
                 out.append({"via": "api", "stmts": c})
                 continue
@@ -1553,6 +1591,8 @@ class DipStoreMachine(Machine):
 
     def _tag(self, default, stmts, model):
         kinds = {st["k"] for st in stmts}
+        if any(st["k"] == "unit" and st.get("ref") is not None for st in stmts):
+            kinds.add("inject")        # a unit sized by reference is an injection
         if kinds & {"inject", "import", "source", "fn"} and self.cfg["prop"] != "C16":
             return "C17"
         if "cmp_expr" in kinds and self.cfg["prop"] == "C17":
